@@ -1,6 +1,667 @@
-//! C08 — stub (to be written; see /verif/harness/AUTHORING.md and DESIGN.md §3 C08)
-use vengine::Property;
+//! C08 — DBSCAN and OPTICS output is the density clustering of the input.
+//!
+//! Every case is a point set, `min_points`, a tolerance and a metric; the check runs linfa with
+//! each of the three neighbour indices and judges every result against predicates written from the
+//! property statement (`oracle.rs`), then compares the three results with each other.
+//!
+//! Coordinates are integers in units of 1/256 (|x| <= 128), so with `scale == 1` every L1/L∞
+//! distance and every squared L2 distance is exact in f64 whatever the summation order: "the
+//! tolerance equals an inter-point distance" then means the same thing for the harness and for
+//! linfa. The "tie" class is generated only on such unscaled data; scaled data (factor 0.1, 1/3,
+//! 1e3, 1e-3) is used with tolerances that keep a relative distance >= 1e-9 from every pairwise
+//! distance.
+
+pub mod oracle;
+pub mod run;
+
+use oracle::{dbscan_violations, optics_violations, Conv, Density, Geometry, Metric, OSample, OpticsVerdict, Violations};
+use proptest::prelude::*;
+use serde::{Deserialize, Serialize};
+use vengine::gen::{idx, perm_from_keys};
+use vengine::{enum_sub, prop_sub, Obs, Property, Tier};
+
+#[derive(Debug, Clone, Serialize, Deserialize)]
+pub struct Case {
+    pub dim: usize,
+    pub pts: Vec<Vec<f64>>,
+    pub min_points: usize,
+    pub tol: f64,
+    pub metric: Metric,
+}
+
+// ------------------------------------------------------------------------------------------------
+// reference DBSCAN (used only to *name* an index dependence in the tie class, never to judge validity)
+
+/// The labelling the textbook algorithm produces when points are visited in index order: clusters
+/// numbered by their lowest-index core point, a border point joins the first cluster that reaches it.
+fn reference_dbscan(d: &Density) -> Vec<Option<usize>> {
+    let n = d.core.len();
+    let mut order: Vec<(usize, usize)> = vec![]; // (lowest core index, component)
+    let mut seen = vec![false; d.ncomp];
+    for i in 0..n {
+        if let Some(c) = d.comp[i] {
+            if !seen[c] {
+                seen[c] = true;
+                order.push((i, c));
+            }
+        }
+    }
+    let mut label_of_comp = vec![0usize; d.ncomp];
+    for (l, &(_, c)) in order.iter().enumerate() {
+        label_of_comp[c] = l;
+    }
+    (0..n)
+        .map(|i| {
+            if let Some(c) = d.comp[i] {
+                Some(label_of_comp[c])
+            } else {
+                d.reaching_components(i).iter().map(|&c| label_of_comp[c]).min()
+            }
+        })
+        .collect()
+}
+
+// ------------------------------------------------------------------------------------------------
+// shared preparation
+
+struct Prepared {
+    g: Geometry,
+    x: ndarray::Array2<f64>,
+}
+
+fn prepare(c: &Case, obs: &mut Obs) -> Option<Prepared> {
+    let well_formed = c.pts.iter().all(|r| r.len() == c.dim && r.iter().all(|v| v.is_finite()))
+        && c.min_points >= 2
+        && c.tol.is_finite()
+        && c.tol > 0.0
+        && c.dim <= 8
+        && c.pts.len() <= 4096;
+    if !well_formed {
+        obs.skip("malformed_case");
+        return None;
+    }
+    let x = match run::to_array(&c.pts, c.dim) {
+        Some(x) => x,
+        None => {
+            obs.skip("malformed_case");
+            return None;
+        }
+    };
+    let g = Geometry::new(&c.pts, c.metric, c.tol);
+    let n = c.pts.len();
+    obs.class(match c.dim {
+        0 => "dim0",
+        1 => "dim1",
+        2 => "dim2",
+        _ => "dim3plus",
+    });
+    obs.class(match c.metric {
+        Metric::L1 => "metric_L1",
+        Metric::L2 => "metric_L2",
+        Metric::LInf => "metric_Linf",
+    });
+    obs.class(match n {
+        0 => "n_0",
+        1 => "n_1",
+        2..=16 => "n_2_16_single_leaf",
+        _ => "n_gt_16_tree_branches",
+    });
+    obs.class_if(n < c.min_points, "n_below_min_points");
+    let dup = (0..n).any(|i| (i + 1..n).any(|j| c.pts[i] == c.pts[j]));
+    obs.class_if(dup, "has_duplicates");
+    let lattice = c.pts.iter().flatten().all(|v| (v * 256.0).fract() == 0.0 && v.abs() <= 128.0);
+    obs.class_if(!lattice, "scaled_inexact_coordinates");
+    if g.ambiguous {
+        obs.skip("ambiguous_tolerance");
+        return None;
+    }
+    obs.class(if g.tie { "tie" } else { "generic" });
+    Some(Prepared { g, x })
+}
+
+fn report(obs: &mut Obs, who: &str, v: &Violations) {
+    for (sig, msg) in v {
+        obs.fail(*sig, format!("{who}: {msg}"));
+    }
+}
+
+// ------------------------------------------------------------------------------------------------
+// DBSCAN
+
+fn check_dbscan(c: &Case, obs: &mut Obs) {
+    let Prepared { g, x } = match prepare(c, obs) {
+        Some(p) => p,
+        None => return,
+    };
+    let n = g.n;
+    let strict = Density::new(&g, c.min_points, Conv::Strict);
+    let incl = if g.tie { Some(Density::new(&g, c.min_points, Conv::Inclusive)) } else { None };
+
+    // classes and the non-trivial rule, from the definition (strict neighbourhoods)
+    let noise = (0..n).any(|i| strict.is_noise(i));
+    let border = (0..n).any(|i| strict.is_border(i));
+    let border_multi = (0..n).any(|i| strict.is_border(i) && strict.reaching_components(i).len() >= 2);
+    obs.class(match strict.ncomp {
+        0 => "clusters_0",
+        1 => "clusters_1",
+        _ => "clusters_2plus",
+    });
+    obs.class_if(noise, "has_noise");
+    obs.class_if(border, "has_border_point");
+    obs.class_if(border_multi, "border_reachable_from_two_clusters");
+    obs.class_if(strict.ncomp >= 1 && !noise && !border, "all_core");
+    if let Some(inc) = &incl {
+        obs.class_if(inc.core != strict.core || inc.ncomp != strict.ncomp, "tie_changes_structure");
+    }
+    obs.nontrivial_if(border_multi || (strict.ncomp >= 2 && noise));
+
+    let mut results: Vec<Option<Vec<Option<usize>>>> = vec![];
+    for (nn, name) in run::INDICES.iter() {
+        let r = obs.call("dbscan", || run::dbscan(&x, c.min_points, c.tol, c.metric, nn.clone(), false));
+        let labels = match r {
+            None => {
+                results.push(None);
+                continue;
+            }
+            Some(Err(e)) => {
+                obs.fail("dbscan:spurious-error", format!("{name}: valid hyper-parameters rejected: {e}"));
+                results.push(None);
+                continue;
+            }
+            Some(Ok(l)) => l,
+        };
+        if c.dim == 0 {
+            // the statement does not say what the clustering of feature-less points is:
+            // all-noise (the coded behaviour) and the definitional labelling are both accepted
+            let all_none = labels.len() == n && labels.iter().all(|l| l.is_none());
+            if !all_none {
+                let v = dbscan_violations(&strict, &labels);
+                if !v.is_empty() {
+                    obs.fail("dbscan:zero-features", format!("{name}: labels {:?} are neither all-noise nor the definitional labelling", labels));
+                }
+            }
+            results.push(Some(labels));
+            continue;
+        }
+        let mut v = dbscan_violations(&strict, &labels);
+        if !v.is_empty() {
+            if let Some(inc) = &incl {
+                let vi = dbscan_violations(inc, &labels);
+                if vi.is_empty() {
+                    obs.class("tie_run_inclusive");
+                    v = vi;
+                }
+            }
+        } else if g.tie {
+            obs.class("tie_run_strict");
+        }
+        report(obs, name, &v);
+        results.push(Some(labels));
+    }
+
+    // index independence
+    let names: Vec<&str> = run::INDICES.iter().map(|x| x.1).collect();
+    for a in 0..results.len() {
+        for b in (a + 1)..results.len() {
+            if let (Some(la), Some(lb)) = (&results[a], &results[b]) {
+                if la == lb {
+                    continue;
+                }
+                let msg = format!("{} gives {:?}, {} gives {:?}", names[a], la, names[b], lb);
+                let conventions_differ = match &incl {
+                    Some(inc) if c.dim > 0 => {
+                        let rs = reference_dbscan(&strict);
+                        let ri = reference_dbscan(inc);
+                        rs != ri && ((*la == rs && *lb == ri) || (*la == ri && *lb == rs))
+                    }
+                    _ => false,
+                };
+                if conventions_differ {
+                    // one index treats a point at distance exactly = tolerance as a neighbour, the other
+                    // does not; each labelling is the DBSCAN clustering under its own convention
+                    obs.fail("dbscan:index-dependence:tie-convention", msg);
+                } else {
+                    obs.fail("dbscan:index-dependence", msg);
+                }
+            }
+        }
+    }
+
+    // the DatasetBase form must return what the array form returns
+    if let Some(Some(direct)) = results.get(1) {
+        let r = obs.call("dbscan(dataset)", || {
+            run::dbscan(&x, c.min_points, c.tol, c.metric, run::INDICES[1].0.clone(), true)
+        });
+        match r {
+            Some(Ok(l)) => {
+                obs.ensure(&l == direct, "dbscan:dataset-form-differs", || {
+                    format!("transform(DatasetBase) gives {:?}, transform(&records) gives {:?}", l, direct)
+                });
+            }
+            Some(Err(e)) => obs.fail("dbscan:spurious-error", format!("dataset form: {e}")),
+            None => {}
+        }
+    }
+}
+
+// ------------------------------------------------------------------------------------------------
+// OPTICS
+
+const RECOGNISED: [&str; 2] = ["optics:core-distance:neighbour-list-order", "optics:reach-refers-to-later-start-point"];
+
+fn unrecognised(v: &OpticsVerdict) -> usize {
+    v.violations.iter().filter(|(s, _)| !RECOGNISED.contains(s)).count()
+}
+
+fn check_optics(c: &Case, obs: &mut Obs) {
+    let Prepared { g, x } = match prepare(c, obs) {
+        Some(p) => p,
+        None => return,
+    };
+    let n = g.n;
+    let strict = Density::new(&g, c.min_points, Conv::Strict);
+    let incl = if g.tie { Some(Density::new(&g, c.min_points, Conv::Inclusive)) } else { None };
+    let ncore = strict.core.iter().filter(|&&b| b).count();
+    obs.class(if ncore == 0 {
+        "no_core_point"
+    } else if ncore == n {
+        "all_core"
+    } else {
+        "some_core_points"
+    });
+    obs.class_if(strict.ncomp >= 2, "components_2plus");
+
+    let mut runs: Vec<Option<(Vec<OSample>, bool)>> = vec![];
+    let mut lowered_any = false;
+    for (nn, name) in run::INDICES.iter() {
+        let r = obs.call("optics", || run::optics(&x, c.min_points, c.tol, c.metric, nn.clone()));
+        let samples = match r {
+            None => {
+                runs.push(None);
+                continue;
+            }
+            Some(Err(e)) => {
+                obs.fail("optics:spurious-error", format!("{name}: valid hyper-parameters rejected: {e}"));
+                runs.push(None);
+                continue;
+            }
+            Some(Ok(s)) => s,
+        };
+        let mut verdict = optics_violations(&g, &strict, c.min_points, &samples);
+        if c.dim == 0 {
+            // as for DBSCAN: all-undefined (the coded behaviour) or the definitional analysis
+            let all_undefined = samples.iter().all(|s| s.core.is_none() && s.reach.is_none());
+            if all_undefined {
+                verdict.violations.retain(|(s, _)| *s == "optics:not-a-permutation");
+            } else if !verdict.violations.is_empty() {
+                obs.fail("optics:zero-features", format!("{name}: listing {:?} is neither all-undefined nor the definitional analysis", samples));
+                verdict.violations.clear();
+            }
+        } else if let Some(inc) = &incl {
+            if !verdict.violations.is_empty() {
+                let vi = optics_violations(&g, inc, c.min_points, &samples);
+                if unrecognised(&vi) < unrecognised(&verdict) || (unrecognised(&vi) == unrecognised(&verdict) && vi.violations.len() < verdict.violations.len()) {
+                    obs.class("tie_run_inclusive");
+                    verdict = vi;
+                }
+            } else {
+                obs.class("tie_run_strict");
+            }
+        }
+        report(obs, name, &verdict.violations);
+        obs.class_if(verdict.defined_reach > 0, "some_reachability_defined");
+        obs.class_if(verdict.violations.iter().any(|(s, _)| *s == RECOGNISED[0]), "hit:core-distance-neighbour-list-order");
+        obs.class_if(verdict.violations.iter().any(|(s, _)| *s == RECOGNISED[1]), "hit:start-point-listed-late");
+        lowered_any |= verdict.lowered > 0;
+        runs.push(Some((samples, verdict.cores_exact)));
+    }
+    obs.class_if(lowered_any, "reachability_lowered_after_set");
+    obs.nontrivial_if(lowered_any);
+
+    // index independence: identical (index, core, reachability) sequences — generic class only
+    if !g.tie && c.dim > 0 {
+        let first_diff = |a: &[OSample], b: &[OSample]| -> String {
+            match a.iter().zip(b.iter()).position(|(x, y)| x != y) {
+                Some(p) => format!("first difference at position {p}: {:?} vs {:?}", a.get(p), b.get(p)),
+                None => format!("lengths {} vs {}", a.len(), b.len()),
+            }
+        };
+        if let (Some(Some((kd, _))), Some(Some((ball, _)))) = (runs.get(1), runs.get(2)) {
+            obs.ensure(kd == ball, "optics:index-dependence:kdtree-balltree", || {
+                format!("KdTree and BallTree listings differ, {}", first_diff(kd, ball))
+            });
+        }
+        if let (Some(Some((lin, lin_exact))), Some(Some((kd, _)))) = (runs.first(), runs.get(1)) {
+            // The LinearSearch run is compared when its core distances are the definitional ones AND
+            // bit-identical to KdTree's: among neighbours whose distances differ only by rounding,
+            // LinearSearch's index-order pick (the recognised core-distance defect) can return a value
+            // one ulp away, which passes the tolerance test above but legitimately re-orders exact ties.
+            let same_cores = lin.len() == kd.len() && {
+                let mut a: Vec<(usize, Option<u64>)> = lin.iter().map(|s| (s.index, s.core.map(f64::to_bits))).collect();
+                let mut b: Vec<(usize, Option<u64>)> = kd.iter().map(|s| (s.index, s.core.map(f64::to_bits))).collect();
+                a.sort_unstable();
+                b.sort_unstable();
+                a == b
+            };
+            if *lin_exact && same_cores {
+                obs.class("linear_listing_compared");
+                obs.ensure(lin == kd, "optics:index-dependence:linear", || {
+                    format!("LinearSearch and KdTree listings differ although all core distances agree, {}", first_diff(lin, kd))
+                });
+            } else {
+                // a wrong core distance was already reported for the LinearSearch run; its ordering and
+                // reachabilities follow from it and are not compared a second time
+                obs.class("linear_listing_not_compared");
+            }
+        }
+    }
+}
+
+// ------------------------------------------------------------------------------------------------
+// generators
+
+type P3 = [i32; 3];
+const Q: i32 = 64; // a quarter, in units of 1/256
+
+fn p3(range: std::ops::RangeInclusive<i32>) -> impl Strategy<Value = P3> {
+    (range.clone(), range.clone(), range).prop_map(|(a, b, c)| [a, b, c])
+}
+
+fn add(a: P3, b: P3) -> P3 {
+    [a[0] + b[0], a[1] + b[1], a[2] + b[2]]
+}
+
+/// One geometric ingredient, as points in units of 1/256.
+fn part(max_count: usize) -> BoxedStrategy<Vec<P3>> {
+    let origin = || p3(-16..=16).prop_map(|o| [o[0] * Q, o[1] * Q, o[2] * Q]);
+    let chain = (origin(), p3(-4..=4), 2..=max_count).prop_map(|(o, s, k)| {
+        (0..k as i32).map(|t| add(o, [s[0] * Q * t, s[1] * Q * t, s[2] * Q * t])).collect::<Vec<P3>>()
+    });
+    let ring = (origin(), 2i32..=16, 3..=max_count.max(3), any::<bool>()).prop_map(|(o, r, k, snap)| {
+        (0..k)
+            .map(|t| {
+                let th = 2.0 * std::f64::consts::PI * (t as f64) / (k as f64);
+                let rr = (r * Q) as f64;
+                let (mut a, mut b) = ((rr * th.cos()).round() as i32, (rr * th.sin()).round() as i32);
+                if snap {
+                    a = ((a as f64) / (Q as f64)).round() as i32 * Q;
+                    b = ((b as f64) / (Q as f64)).round() as i32 * Q;
+                }
+                add(o, [a, b, 0])
+            })
+            .collect::<Vec<P3>>()
+    });
+    let grid = (origin(), 1usize..=5, 1usize..=5, 1usize..=2, 1i32..=4).prop_map(move |(o, w, h, dd, sp)| {
+        let mut v = vec![];
+        for a in 0..w {
+            for b in 0..h {
+                for cc in 0..dd {
+                    v.push(add(o, [a as i32 * sp * Q, b as i32 * sp * Q, cc as i32 * sp * Q]));
+                }
+            }
+        }
+        v.truncate(max_count.max(1));
+        v
+    });
+    let cloud = (origin(), 2i32..=6, proptest::collection::vec((any::<u16>(), any::<u16>(), any::<u16>()), 1..=max_count)).prop_map(
+        |(o, r, raw)| {
+            raw.into_iter()
+                .map(|(a, b, cc)| {
+                    let f = |u: u16| idx(u, (r + 1) as usize) as i32 * 256;
+                    add(o, [f(a), f(b), f(cc)])
+                })
+                .collect::<Vec<P3>>()
+        },
+    );
+    let blob = (
+        origin(),
+        prop_oneof![Just(64i32), Just(128), Just(256)],
+        proptest::collection::vec((vengine::gen::gauss(), vengine::gen::gauss(), vengine::gen::gauss()), 2..=max_count),
+    )
+        .prop_map(|(o, spread, raw)| {
+            raw.into_iter()
+                .map(|(a, b, cc)| {
+                    let f = |g: f64| (g.clamp(-6.0, 6.0) * spread as f64).round() as i32;
+                    add(o, [f(a), f(b), f(cc)])
+                })
+                .collect::<Vec<P3>>()
+        });
+    let noise = proptest::collection::vec((p3(20..=60), any::<[bool; 3]>()), 1..=3).prop_map(|v| {
+        v.into_iter()
+            .map(|(p, s)| {
+                let f = |x: i32, neg: bool| if neg { -x * 256 } else { x * 256 };
+                [f(p[0], s[0]), f(p[1], s[1]), f(p[2], s[2])]
+            })
+            .collect::<Vec<P3>>()
+    });
+    prop_oneof![
+        3 => chain.boxed(),
+        2 => ring.boxed(),
+        2 => grid.boxed(),
+        3 => cloud.boxed(),
+        2 => blob.boxed(),
+        1 => noise.boxed(),
+    ]
+    .boxed()
+}
+
+#[derive(Debug, Clone)]
+struct TolSel {
+    tie: bool,
+    rank: u16,
+    low_biased: bool,
+    /// when set: the tolerance is this inter-point distance (tie) or sits in the gap right above it
+    target: Option<f64>,
+}
+
+fn choose_tolerance(pts: &[Vec<f64>], metric: Metric, sel: &TolSel) -> f64 {
+    let n = pts.len();
+    let mut d: Vec<f64> = vec![];
+    for i in 0..n {
+        for j in (i + 1)..n {
+            let v = oracle::dist(&pts[i], &pts[j], metric);
+            if v > 0.0 && v.is_finite() {
+                d.push(v);
+            }
+        }
+    }
+    d.sort_by(|a, b| a.partial_cmp(b).unwrap_or(std::cmp::Ordering::Equal));
+    d.dedup();
+    if d.is_empty() {
+        return 1.0;
+    }
+    let pick = |len: usize| -> usize {
+        if sel.low_biased {
+            let u = sel.rank as f64 / 65536.0;
+            ((u * u * u) * len as f64) as usize
+        } else {
+            idx(sel.rank, len)
+        }
+        .min(len.saturating_sub(1))
+    };
+    // position of the targeted distance, if one is asked for and present
+    let target_pos = sel.target.and_then(|t| d.iter().position(|&v| v == t));
+    if sel.tie {
+        return d[target_pos.unwrap_or_else(|| pick(d.len()))];
+    }
+    // gaps: 0 = below the smallest distance, k = between d[k-1] and d[k], len = above the largest
+    let start = target_pos.map(|p| p + 1).unwrap_or_else(|| pick(d.len() + 1));
+    for k in start..d.len() {
+        let (lo, hi) = if k == 0 { (0.0, d[0]) } else { (d[k - 1], d[k]) };
+        if hi - lo >= 1e-7 * hi {
+            return lo + (hi - lo) / 2.0;
+        }
+    }
+    d[d.len() - 1] * 1.5
+}
+
+fn case_strategy(tier: Tier, allow_tie: bool) -> impl Strategy<Value = Case> {
+    prop_oneof![
+        5 => general_case(tier, allow_tie).boxed(),
+        1 => bridge_case(tier, allow_tie).boxed(),
+    ]
+}
+
+/// Two chains of spacing |v| on one line, a single point half-way between them at distance
+/// L = t·|v| from either chain end, tolerance right above (or equal to) L: the middle point sees the
+/// two chain ends only. With min_points >= 4 it is a border point reachable from two clusters; with
+/// smaller min_points it is a core point that joins them. Optional further ingredients, rows permuted.
+fn bridge_case(tier: Tier, allow_tie: bool) -> impl Strategy<Value = Case> {
+    let max_n: usize = tier.pick(40, 150);
+    let max_part: usize = tier.pick(10, 40);
+    let extra = proptest::collection::vec(part(max_part), 0..=1);
+    let keys = prop_oneof![1 => Just(Vec::<u16>::new()), 3 => proptest::collection::vec(any::<u16>(), max_n)];
+    let metric = prop_oneof![Just(Metric::L2), Just(Metric::L1), Just(Metric::LInf)];
+    (
+        (p3(-8..=8), p3(-3..=3), 2i32..=6, 1usize..=6, 1usize..=6),
+        extra,
+        keys,
+        1usize..=3,
+        metric,
+        2usize..=6,
+        proptest::bool::weighted(if allow_tie { 0.25 } else { 0.0 }),
+        any::<u16>(),
+    )
+        .prop_map(move |((o, v, t, ma, mb), extra, keys, dim, metric, min_points, tie, rank)| {
+            let c: P3 = [o[0] * Q, o[1] * Q, o[2] * Q];
+            let at = |k: i32| -> P3 { [c[0] + v[0] * Q * k, c[1] + v[1] * Q * k, c[2] + v[2] * Q * k] };
+            let mut raw: Vec<P3> = vec![c];
+            for j in 0..ma as i32 {
+                raw.push(at(t + j));
+            }
+            for j in 0..mb as i32 {
+                raw.push(at(-t - j));
+            }
+            raw.extend(extra.into_iter().flatten());
+            raw.truncate(max_n);
+            let order = perm_from_keys(&keys, raw.len());
+            let conv = |p: &P3| -> Vec<f64> { p.iter().take(dim).map(|&q| q as f64 / 256.0).collect() };
+            let pts: Vec<Vec<f64>> = order.iter().filter_map(|&i| raw.get(i)).map(conv).collect();
+            let l = oracle::dist(&conv(&c), &conv(&at(t)), metric);
+            let sel = TolSel { tie, rank, low_biased: true, target: if l > 0.0 { Some(l) } else { None } };
+            let tol = choose_tolerance(&pts, metric, &sel);
+            Case { dim, pts, min_points, tol, metric }
+        })
+}
+
+fn general_case(tier: Tier, allow_tie: bool) -> impl Strategy<Value = Case> {
+    let max_n: usize = tier.pick(40, 150);
+    let max_part: usize = tier.pick(14, 48);
+    let parts = prop_oneof![1 => Just(Vec::<Vec<P3>>::new()).boxed(), 40 => proptest::collection::vec(part(max_part), 1..=4).boxed()];
+    let dups = proptest::collection::vec(any::<u16>(), 0..=4);
+    let keys = prop_oneof![2 => Just(Vec::<u16>::new()), 3 => proptest::collection::vec(any::<u16>(), max_n)];
+    let dim = prop_oneof![1 => Just(0usize), 8 => Just(1usize), 14 => Just(2usize), 8 => Just(3usize)];
+    let scale = prop_oneof![7 => Just(1.0f64), 1 => Just(0.1), 1 => Just(1.0 / 3.0), 1 => Just(1000.0), 1 => Just(0.001)];
+    let metric = prop_oneof![Just(Metric::L2), Just(Metric::L1), Just(Metric::LInf)];
+    let tolsel = (proptest::bool::weighted(if allow_tie { 0.3 } else { 0.0 }), any::<u16>(), proptest::bool::weighted(0.7))
+        .prop_map(|(tie, rank, low_biased)| TolSel { tie, rank, low_biased, target: None });
+    (parts, dups, keys, dim, scale, metric, 2usize..=6, tolsel).prop_map(move |(parts, dups, keys, dim, scale, metric, min_points, sel)| {
+        let mut raw: Vec<P3> = parts.into_iter().flatten().collect();
+        for u in dups {
+            if !raw.is_empty() {
+                let p = raw[idx(u, raw.len())];
+                raw.push(p);
+            }
+        }
+        raw.truncate(max_n);
+        let order = perm_from_keys(&keys, raw.len());
+        // ties are generated on exact (unscaled) coordinates only
+        let scale = if sel.tie { 1.0 } else { scale };
+        let pts: Vec<Vec<f64>> = order
+            .iter()
+            .filter_map(|&i| raw.get(i))
+            .map(|p| p.iter().take(dim).map(|&q| (q as f64 / 256.0) * scale).collect())
+            .collect();
+        let tol = choose_tolerance(&pts, metric, &sel);
+        Case { dim, pts, min_points, tol, metric }
+    })
+}
+
+/// Every sequence of <= `len` points on {0,..,`vals`-1} (one feature), min_points 2..=4, tolerances
+/// on and between the integer distances: sweeps the visiting order exhaustively.
+fn small_1d(tier: Tier) -> Vec<Case> {
+    let vals: usize = tier.pick(4, 5);
+    let len: usize = tier.pick(5, 6);
+    let mut out = vec![];
+    let mut seqs: Vec<Vec<usize>> = vec![vec![]];
+    let mut frontier: Vec<Vec<usize>> = vec![vec![]];
+    for _ in 0..len {
+        let mut next = vec![];
+        for s in &frontier {
+            for v in 0..vals {
+                let mut t = s.clone();
+                t.push(v);
+                next.push(t);
+            }
+        }
+        seqs.extend(next.iter().cloned());
+        frontier = next;
+    }
+    let metrics = [Metric::L2, Metric::L1, Metric::LInf];
+    for (k, s) in seqs.iter().enumerate() {
+        for min_points in 2..=4usize {
+            for (t, tol) in [0.5, 1.0, 1.5, 2.0, 2.5].iter().enumerate() {
+                out.push(Case {
+                    dim: 1,
+                    pts: s.iter().map(|&v| vec![v as f64]).collect(),
+                    min_points,
+                    tol: *tol,
+                    metric: metrics[(k + t) % 3],
+                });
+            }
+        }
+    }
+    out
+}
+
+/// Degenerate shapes: no samples, one sample, no features, fewer samples than min_points, and the
+/// three-point example of DESIGN §3.
+fn corners(_tier: Tier) -> Vec<Case> {
+    let mut out = vec![];
+    for metric in [Metric::L2, Metric::L1, Metric::LInf] {
+        for min_points in [2usize, 3, 6] {
+            for dim in 0..=3usize {
+                for n in [0usize, 1, 2, 3, 7, 20] {
+                    for tol in [0.5, 1.0, 3.0] {
+                        let pts: Vec<Vec<f64>> = (0..n).map(|i| (0..dim).map(|j| ((i * (j + 1)) % 5) as f64).collect()).collect();
+                        out.push(Case { dim, pts, min_points, tol, metric });
+                    }
+                }
+            }
+            out.push(Case { dim: 1, pts: vec![vec![0.0], vec![1.0], vec![-1.0]], min_points, tol: 1.5, metric });
+        }
+    }
+    out
+}
 
 pub fn property() -> Property {
-    Property { id: "C08", rule: "", assumptions: vec![], subs: vec![] }
+    Property {
+        id: "C08",
+        rule: "cases = (point set assembled from chains, rings, grids, small-integer clouds, gaussian blobs, far noise points and duplicates, \
+               rows permuted; 0..=3 features; n 0..=40 quick / 0..=150 thorough; min_points 2..=6; metric L1/L2/Linf; tolerance placed in a gap \
+               between sorted pairwise distances = class generic, or bit-equal to one = class tie). Every case is run with LinearSearch, KdTree and \
+               BallTree. Plus exhaustive enumeration of all 1-feature sequences of <= 5 (6) points on 4 (5) integer positions x min_points 2..=4 x \
+               5 tolerances, and a table of degenerate shapes. Non-trivial: DBSCAN = a border point reachable from two clusters, or >= 2 clusters \
+               together with noise; OPTICS = some sample whose reachability is smaller than what the first listed core point within the tolerance \
+               offered (it was lowered after first being set). Distinct = distinct canonical JSON of the case",
+        assumptions: vec![
+            "neighbourhood N(i) = { j : d(i,j) < tolerance }, the point itself included; core = |N(i)| >= min_points (strict, as LinearSearch/BallTree)".into(),
+            "tie class (tolerance bit-equal to an inter-point distance): a run is accepted if it satisfies the predicates under '<' or under '<=', one convention for the whole run; generated only on coordinates k/256, |x| <= 128, where all L1/Linf and squared-L2 distances are exact in f64".into(),
+            format!("cases whose tolerance is within relative {:e} of a pairwise distance it is not bit-equal to are not judged (counted as skipped 'ambiguous_tolerance'); the generator keeps a relative gap >= 5e-8", oracle::AMBIGUOUS_BAND),
+            format!("core and reachability distances are compared with the harness' own distance formula with relative tolerance 64*eps = {:e}", oracle::DIST_REL_TOL),
+            "reachability is checked against the core distances linfa reports (each of which is checked against the definition separately), so one wrong core distance is reported once".into(),
+            "a reachability that is None is always accepted (the statement says 'either undefined or ...'); o may be the sample itself (listed 'no later')".into(),
+            "zero features: DBSCAN all-noise or the definitional labelling, OPTICS all-undefined or the definitional analysis are both accepted; no panic".into(),
+            "index independence: DBSCAN label vectors identical for the three indices (all classes); OPTICS (index, core, reachability) sequences bit-identical in the generic class only; the LinearSearch listing is compared only when its core distances are the definitional ones".into(),
+            "tolerance <= 0, min_points < 2, non-finite coordinates and non-contiguous views are documented preconditions and are not generated".into(),
+        ],
+        subs: vec![
+            prop_sub("optics", 6000, 120000, |t: Tier| case_strategy(t, true), check_optics),
+            prop_sub("dbscan", 6000, 120000, |t: Tier| case_strategy(t, true), check_dbscan),
+            enum_sub("optics_small_1d", small_1d, check_optics),
+            enum_sub("dbscan_small_1d", small_1d, check_dbscan),
+            enum_sub("optics_corners", corners, check_optics).chunks(1),
+            enum_sub("dbscan_corners", corners, check_dbscan).chunks(1),
+        ],
+    }
 }
